@@ -153,6 +153,23 @@ func (t *target) Rotate() string {
 	})
 }
 
+// ImportVersion: Policy.ImportPublicOrPrivate with a fresh random key (a new key version made of given material), inside
+// a transaction as pathImportVersionWrite runs it.
+func (t *target) ImportVersion() string {
+	return t.inTx(func(st logical.Storage) string {
+		p, c := t.getFrom(st, true)
+		if c != "" {
+			return c
+		}
+		defer p.Unlock()
+		key := make([]byte, 32)
+		if _, err := rand.Read(key); err != nil {
+			return "other(rand)"
+		}
+		return cls(p.ImportPublicOrPrivate(t.ctx, st, key, true, rand.Reader))
+	})
+}
+
 // Config replays pathKeysConfigWrite's use of the policy (min versions and the three flags).
 func (t *target) Config(dec, enc *int, del, exp, apb *bool) string {
 	return t.inTx(func(st logical.Storage) (res string) {
